@@ -24,6 +24,7 @@ import (
 	"testing"
 	"time"
 
+	"google.golang.org/grpc/balancer"
 	"google.golang.org/grpc/resolver"
 	"google.golang.org/grpc/serviceconfig"
 	"pgregory.net/rapid"
@@ -90,6 +91,11 @@ func (c *c15rConn) UpdateState(s resolver.State) error {
 	c.mu.Unlock()
 	if hook != nil {
 		hook()
+	}
+	if len(s.Addresses) == 0 {
+		// what a real channel's balancer answers to an empty address list (the state was taken over
+		// and recorded all the same; the resolver only logs the error)
+		return balancer.ErrBadResolverState
 	}
 	return nil
 }
